@@ -656,7 +656,7 @@ func mutEnum(c *core.Ctx, t *core.Trace) {
 
 // mutRand: random objects, several writes, random calls at random depths in between.
 func mutRand(c *core.Ctx, t *core.Trace) {
-	nh := c.Pick(260, 5000)
+	nh := c.Pick(260, 3000)
 	for cas := 0; cas < nh; cas++ {
 		if !c.Want("mut", cas) {
 			continue
